@@ -194,6 +194,10 @@ def gen_case(rng, flavour):
         if l.startswith(("cmp parallel", "cmp allpairs")):
             out.append("recheck")
     lines = out + ["recheck"]
+    # the inputs are not changed by any builder: the first table, computed again at the very end, is the same
+    first_tab = next((l for l in lines if l.startswith("tab ")), None)
+    if first_tab is not None:
+        lines.append(first_tab)
     if rng.random() < 0.03:
         k0 = [k for k in kinds if k in SIM_KINDS][0]
         lines.append(f"cmp serial {k0} {kind_ds[k0]} - -")          # empty list
@@ -226,6 +230,11 @@ def parse_case(case, impl):
 def oracle(case, impl):
     bad = []
     for idx, (l, o) in enumerate(zip(case, impl)):
+        if " views=DIFF:" in o:
+            bad.append((idx, "C16:views-differ", f"the matrix returned by `{l[:60]}` reads differently through: {o.split(' views=DIFF:', 1)[1][:200]}"))
+        if "ROUTES-DIFFER" in o:
+            bad.append((idx, "C16:pairwise-routes-differ", f"`{' '.join(l.split()[:3])}`: the same pairwise value through two spellings of the API differs: "
+                        + o[o.index("ROUTES-DIFFER"):][:200]))
         if l == "recheck" and "CHANGED" in o:
             bad.append((idx, "C16:earlier-result-changed",
                         "a matrix returned by an earlier call no longer holds the values it was returned with, after: "
